@@ -89,7 +89,7 @@ func export(input OmegaInput) (output OmegaOutput) {
 
 	segmentLength := uint64(input.Addition.ExportSegmentOffset) + uint64(len(input.Addition.ExportSegment))
 	// otherwise if ζ + |e| >= W_X
-	if segmentLength > types.MaxExportCount {
+	if segmentLength >= types.MaxExportCount {
 		input.VM.Registers[7] = FULL
 		return OmegaOutput{
 			ExitReason: ExitContinue,
